@@ -166,7 +166,7 @@ func c05Keys(c *Ctx, p *Prog, m *Model, mr *ModeReach) {
 	okDot := saved != nil
 	for _, cs := range callsIn(sa) {
 		cal := calleeOf(cs)
-		if cal == nil || cal.Name() != "DotPrefix" || !fb[cs.Block()] {
+		if cal == nil || nm(cal) != "DotPrefix" || !fb[cs.Block()] {
 			continue
 		}
 		nDot++
@@ -218,7 +218,7 @@ func c05Quoting(c *Ctx, p *Prog, m *Model, mr *ModeReach) {
 					if cal == nil {
 						continue
 					}
-					switch cal.Name() {
+					switch nm(cal) {
 					case "appendQuotedWith":
 						a := x.Common().Args
 						if a[1] != ssa.Value(aq.Params[1]) {
@@ -234,7 +234,7 @@ func c05Quoting(c *Ctx, p *Prog, m *Model, mr *ModeReach) {
 					case "PreAlloc", "Grow", "preCheck":
 					default:
 						if tn := cal.Signature.Recv(); tn != nil && typeName(tn.Type()) == "PrintCtx" {
-							bad = "also writes through " + cal.Name() + " (a path that does not go through the escaper)"
+							bad = "also writes through " + nm(cal) + " (a path that does not go through the escaper)"
 						}
 					}
 				case *ssa.Store:
@@ -340,7 +340,7 @@ func c05Quoting(c *Ctx, p *Prog, m *Model, mr *ModeReach) {
 					c2, isCall := cond.(*ssa.Call)
 					okTest := false
 					if isCall {
-						if cal := calleeOf(c2); cal != nil && (cal.String() == "strconv.IsPrint" || cal.Name() == "isInGraphicList" || cal.String() == "strconv.IsGraphic" || cal.String() == "unicode.IsPrint") {
+						if cal := calleeOf(c2); cal != nil && (cal.String() == "strconv.IsPrint" || nm(cal) == "isInGraphicList" || cal.String() == "strconv.IsGraphic" || cal.String() == "unicode.IsPrint") {
 							okTest = true
 						}
 					}
@@ -377,7 +377,7 @@ func isHexDigit(v ssa.Value) bool {
 		default:
 			return false
 		}
-		if g, ok := globalLoad(x); !ok || g.Name() != "hex" {
+		if g, ok := globalLoad(x); !ok || nm(g) != "hex" {
 			if c, ok := x.(*ssa.Const); !ok || c.Value == nil {
 				return false
 			}
